@@ -353,6 +353,7 @@ func c06Round(rep *vk.Report, idx int) {
 		time.Sleep(time.Millisecond)
 	}
 	if !ok {
+		rep.Abort() // every further round would spend seconds polling for permits that are gone
 		rep.Violate(idx, "C06/permit-conservation", fmt.Sprintf("after every execution finished only %d of %d permits can be acquired (case %+v; refusals=%d cancelled-waiting=%d cancelled-holding=%d)", got, cs.Cap, cs, errFullResults.Load(), cancelledWaiting.Load(), cancelledHolding.Load()), cs)
 		return
 	}
